@@ -89,7 +89,9 @@ pub fn catalogue(tier: Tier) -> Vec<(Spec, u32)> {
 }
 
 pub fn run(tier: Tier) -> ! {
-    let rep = Reporter::new("C06", "taskmc", tier, "exploration");
+    let rep = std::sync::Arc::new(Reporter::new("C06", "taskmc", tier, "exploration"));
+    // an execution that never returns (endless loop inside one poll of the subject) becomes a verdict
+    let wd = mcx::watchdog::ExecWatchdog::start(rep.clone(), "any-program/poll-never-returns", Duration::from_secs(30));
     let samples = Samples::new(6);
     let mut cat = catalogue(tier);
     // developer aids: TASKMC_ONLY=<substring of name+params>, TASKMC_BOUND=<n>
@@ -115,8 +117,10 @@ pub fn run(tier: Tier) -> ! {
         let deadline = start + budget.mul_f64((i + 1) as f64 / n as f64).max(Duration::from_millis(300));
         let cfg = ExploreCfg { bound: *bound, deadline: Some(deadline), tolerate_divergence: true, ..Default::default() };
         let max_polls = AtomicU64::new(0);
+        let label = std::sync::Arc::new(json!({"scenario": spec.name, "params": spec.params}));
         let st = explore(&cfg, |ch: &mut Chooser| {
             executions.fetch_add(1, Ordering::Relaxed);
+            let _g = wd.enter(&label, ch.prefix());
             let out = mcx::catch(|| run_once(spec, ch));
             match out {
                 Ok(o) => {
@@ -168,6 +172,7 @@ pub fn run(tier: Tier) -> ! {
     cov.insert("instances_capped_by_time".into(), json!(per.iter().filter(|p| p["capped"].as_bool() == Some(true)).count()));
     cov.insert("program_list".into(), json!(per));
     cov.insert("samples".into(), json!(samples.take()));
+    wd.stop();
     rep.finish(
         cov,
         vec![
